@@ -1,0 +1,13 @@
+//go:build verif
+// +build verif
+
+package gf2p16
+
+// Verification hooks (build tag "verif"): exports of the portable Go kernels so
+// that every dispatch path can be driven on one machine. Not part of the API.
+
+// VerifMulGeneric calls the portable Go multiply kernel.
+func VerifMulGeneric(c T, in, out []byte) { mulByteSliceLEGeneric(c, in, out) }
+
+// VerifMulAddGeneric calls the portable Go multiply-accumulate kernel.
+func VerifMulAddGeneric(c T, in, out []byte) { mulAndAddByteSliceLEGeneric(c, in, out) }
